@@ -1,5 +1,5 @@
 From Coq Require Import List NArith Bool.
-From LTV Require Import Params_gen.
+From LTV.C15 Require Import ParamsGen.
 From LTV.C15 Require Import Model Proofs ProofsMid ProofsTableA ProofsTableB ProofsTableC ProofsTokens ProofsCounters.
 Import ListNotations.
 Local Open Scope N_scope.
